@@ -55,6 +55,9 @@ type VSimFetchAction struct {
 	LogAppend      bool
 	DelayMs        int
 	ShuffleAborted int64 // != 0: seed used to shuffle the aborted-transaction list
+	// AbortedBeyond: the aborted-transaction list also names transactions that begin up to this many
+	// offsets behind the last record served (a broker collects its index up to a coarse upper bound)
+	AbortedBeyond int64
 }
 
 // VSimFetched records what one partition block of a fetch answer contained.
@@ -221,7 +224,7 @@ func (s *VSim) handleFetch(b *VSimBroker, connID int64, ctx *VSimReqCtx, r *Fetc
 					}
 				}
 				if r.Isolation == ReadCommitted && r.Version >= 4 {
-					upper := rec.LastServed
+					upper := rec.LastServed + act.AbortedBeyond
 					for _, a := range part.aborted {
 						if a.LastOffset >= p.Offset && a.FirstOffset <= upper {
 							aborted = append(aborted, a)
